@@ -471,6 +471,32 @@ def r5(F, R):
                 R.ok("C15-R5", key, site, "%s.%s %s" % (wb.fn_name, fld, "+= 1" if kind == "inc" else "= 0"))
             else:
                 R.bad("C15-R5", key, site, "%s writes SampleBuffer.%s as %s" % (wb.fn_name, fld, s[:60]))
+    # flush support: copy_as_chunk is a snapshot of what the buffer holds now; it cannot remember earlier flushes
+    a_ = F.adts.get(adt) or {}
+    for f_ in (a_.get("variants") or [{}])[0].get("fields", []):
+        if any(x in f_["ty"] for x in ("cell::Cell<", "cell::RefCell<", "atomic::Atomic", "sync::Mutex<", "OnceCell<", "OnceLock<", "cell::UnsafeCell<")):
+            R.bad("C15-R5", "SampleBuffer.%s:interior-mutability" % f_["name"], adt, "SampleBuffer.%s: %s can change behind `&self`: a snapshot taken for a flush may depend on earlier "
+                  "flushes (a chunk that was flushed at the same fill level before is skipped)" % (f_["name"], f_["ty"]))
+    for b in F.inherent_methods("SampleBuffer", "copy_as_chunk"):
+        from . import rel as Rl
+        nones = [(bi, st) for bi, blk in enumerate(b.blocks) if not blk["cleanup"] for st in blk["stmts"]
+                 if st["k"] == "assign" and st["pl"]["l"] == 0 and not st["pl"]["p"] and st["rv"]["k"] == "agg" and st["rv"].get("variant") == "None"]
+        site = "%s @%s" % (b.path, b.loc())
+        okk = bool(nones)
+        why = ""
+        for bi, st in nones:
+            rels = [(o, l, r) for (o, l, r, _s) in Rl.edge_relations(b, bi) if r is not None]
+            fields = set()
+            for (o, l, r) in rels:
+                fields |= {n[2] for n in vt_walk(l) if n[0] == "field"} | {n[2] for n in vt_walk(r) if n[0] == "field"}
+            empty = any(o == "Eq" and {n[2] for n in vt_walk(l) if n[0] == "field"} == {"len"} and r[0] == "const" and r[2] == "0" for (o, l, r) in rels)
+            if not empty or fields - {"len"}:
+                okk = False
+                why = "None is returned under a condition on %s" % sorted(fields)
+        if okk:
+            R.ok("C15-R5", b.path + ":snapshot", site, "copy_as_chunk returns None exactly for an empty buffer")
+        else:
+            R.bad("C15-R5", b.path + ":snapshot", site, "copy_as_chunk does not hand out every non-empty buffer: %s" % (why or "no `None` for the empty buffer found"))
     for b in F.inherent_methods("SampleBuffer", "reset"):
         w = {}
         for (wb, bb, st, v, how) in K.field_writers(F, adt, "current_chunk"):
